@@ -926,6 +926,15 @@ class C11(Prop):
                 continue        # needs folding / does not fit the line limit: excluded by the statement
             first, rest = canon[len("first="):].split(";gen=", 1)
             gen, back = rest.split(";back=", 1)
+            if m["kind"] == "rtreq":
+                # the statement quantifies over inputs whose re-serialised header lines fit the line limit
+                # without folding: a parsed value longer than the limit (an unfolded continuation) is folded
+                # by generate(), and folding at a tab or a run of spaces is not undone by unfolding
+                lim = {"d": 1000, "-": None}.get(m["args"][1], None if not m["args"][1].isdigit() else int(m["args"][1]))
+                hf = fields_of(first).get("h", "-")
+                if lim is not None and hf not in ("-", ""):
+                    if any(len(nv.split(":")[0]) // 2 + 2 + len(nv.split(":")[1]) // 2 + 2 > lim for nv in hf.split(",")):
+                        continue
             if not back.startswith(f"C{len(gen) // 2};"):
                 yield [cid], f"re-serialised message is not accepted whole: {back[:120]}"
                 continue
@@ -1187,6 +1196,9 @@ class C15(Prop):
                     ctx.add("dec", [hdrs_spec(hs), hx(d2)], plain=plain, dmg="flip", fmt=fmt, data=d2)
         for _ in range(ctx.n(100, 1000)):
             add_decode_case(ctx, damaged=True, stack_only=True)
+        # the witness of known finding K5, every run: zlib body 78 da 3b ... with one bit of its first byte flipped
+        k5 = bytes.fromhex("7ada3b38a7f5370006e102de")
+        ctx.add("dec", [hdrs_spec([("Content-Encoding", "deflate")]), hx(k5)], plain=bytes.fromhex("c19c85fb"), dmg="flip", fmt="zlib", data=k5)
         # large, highly repetitive content (decoded size >> coded size): the end-of-stream checks still apply
         line = b"GET /index.html HTTP/1.1 200 1234 \"-\" \"agent\"\n"
         for size in (65536, 100000) + ((300000,) if ctx.thorough else ()):
@@ -1230,6 +1242,13 @@ class C15(Prop):
             got = bytes.fromhex(f["b"])
             if got == m["plain"] or fmt == "raw":
                 continue        # bare deflate carries no checksum: bit flips are outside the statement
+            dd = bytes.fromhex(m["args"][1]) if m["args"][1] != "." else b""
+            if fmt == "zlib" and not (len(dd) >= 2 and dd[0] & 0x0f == 8 and dd[0] >> 4 <= 7 and (dd[0] * 256 + dd[1]) % 31 == 0):
+                # the flip hit the two-byte zlib header: what is left no longer passes the zlib test and is read
+                # as a bare deflate stream; when flate2's raw decoder accepts it, the result is returned although
+                # it contradicts the Adler-32 at the end of the body (known finding K5)
+                yield [cid], "zlib header destroyed by the damage: body read as bare deflate, content contradicts the stored Adler-32"
+                continue
             data = bytes.fromhex(m["args"][1]) if m["args"][1] != "." else b""
             if "fmt" not in m:
                 # stacked case: compare at the outermost layer only when it is the only layer
@@ -1241,6 +1260,14 @@ class C15(Prop):
                 continue
             yield [cid], "damaged body decoded to content contradicting the stored checksum"
 
+
+def _c15_known(self, ctx, cid, msg):
+    if "zlib header destroyed" in msg:
+        return "K5"
+    return None
+
+
+C15.known = _c15_known
 
 CT_VALUES = ["text/plain", "text/html; charset=utf-8", "TEXT/PLAIN; CHARSET=UTF-8", "Text/x;Charset=Utf-8", "text/plain;charset=iso-8859-1",
              "text/plain; charset=\"utf-8\"", "text/plain; x=y; charset=utf-8", "text/plain; charset=utf-8; charset=latin1",
